@@ -107,6 +107,10 @@ fn main() {
             let seed: u64 = args[2].parse().unwrap_or(0);
             session::random(seed, args[3].parse().unwrap_or(1), args[4].parse().unwrap_or(10), &args[5]);
         }
+        "session-soak-concurrent" => {
+            let seed: u64 = args[2].parse().unwrap_or(0);
+            session::soak_concurrent(seed, args[3].parse().unwrap_or(4), args[4].parse().unwrap_or(10), &args[5]);
+        }
         "session-soak" => {
             let seed: u64 = args[2].parse().unwrap_or(0);
             session::soak(seed, args[3].parse().unwrap_or(1), args[4].parse().unwrap_or(10), &args[5]);
